@@ -67,6 +67,31 @@ type Case struct {
 	Workers [][]Step `json:"workers"`
 	// NoExclude disables the exclusion of open known findings (finding repro cases).
 	NoExclude bool `json:"no_exclude,omitempty"`
+	// Sched, when set, makes the child wrap the DAGService of the MFS root so that
+	// DAGService.Add/Get calls become harness-owned scheduling points (see schedDAG).
+	Sched *Sched `json:"sched,omitempty"`
+}
+
+// Sched describes the scheduling points injected at the DAGService boundary. MFS calls
+// DAGService.Add (and Get) both with and without its own locks held, in particular between
+// the lock-free stages of every update that bubbles up the tree (file node stored -> entry of
+// the parent updated -> entry of the grandparent updated -> Root notified), so a pause there
+// widens every such window without any hook in the library.
+type Sched struct {
+	// Mode "handoff": the calling goroutine waits at the point until OTHER workers have
+	// completed Steps whole steps (or nobody else is running, or the bound WaitUs expired):
+	// a complete foreign operation is placed inside the window whenever the locks held at
+	// the point allow it. Mode "sleep": plain time.Sleep(WaitUs) (0: only yields).
+	Mode string `json:"mode"`
+	// Every k-th matching call is a scheduling point (1 = every call).
+	Every int `json:"every"`
+	// On: "add" | "get" | "both" - which DAGService calls count.
+	On string `json:"on"`
+	// Nodes: "any" | "dir" | "file" - only Adds of directory / non-directory nodes count.
+	Nodes  string `json:"nodes"`
+	Steps  int    `json:"steps,omitempty"`
+	WaitUs int    `json:"wait_us"`
+	Yields int    `json:"yields,omitempty"`
 }
 
 // the shared tree: token files (fixed per-worker slots, checked), a movable file and a movable directory
@@ -115,10 +140,35 @@ func genStep(t *rapid.T) Step {
 	return s
 }
 
+func genSched(t *rapid.T) *Sched {
+	if rapid.IntRange(0, 3).Draw(t, "sched") == 0 {
+		return nil // plain run: the Go scheduler alone
+	}
+	sc := &Sched{
+		Mode:  rapid.SampledFrom([]string{"handoff", "handoff", "sleep"}).Draw(t, "schedmode"),
+		Every: rapid.SampledFrom([]int{1, 1, 2, 3}).Draw(t, "every"),
+		On:    rapid.SampledFrom([]string{"add", "add", "both"}).Draw(t, "on"),
+		Nodes: rapid.SampledFrom([]string{"any", "any", "dir", "file"}).Draw(t, "nodes"),
+	}
+	if sc.Mode == "handoff" {
+		sc.Steps = rapid.IntRange(1, 2).Draw(t, "hsteps")
+		sc.WaitUs = rapid.SampledFrom([]int{100, 300, 1000}).Draw(t, "waitus")
+	} else {
+		sc.WaitUs = rapid.SampledFrom([]int{0, 20, 100, 300}).Draw(t, "waitus")
+		sc.Yields = rapid.IntRange(0, 3).Draw(t, "yields")
+	}
+	return sc
+}
+
 func gen(t *rapid.T) Case {
 	c := Case{}
 	c.Procs = rapid.SampledFrom([]int{2, 16}).Draw(t, "procs")
 	c.Loops = rapid.IntRange(kit.Scale(60, 100), kit.Scale(250, 500)).Draw(t, "loops")
+	c.Sched = genSched(t)
+	if rapid.IntRange(0, 2).Draw(t, "profile") == 0 {
+		c.Workers = genOwnerVsFlushers(t)
+		return c
+	}
 	nw := rapid.IntRange(2, 4).Draw(t, "workers")
 	// make collisions on one file frequent: a "hot" file that most steps are redirected to
 	hot := rapid.IntRange(0, len(filePaths)-1).Draw(t, "hot")
@@ -138,6 +188,80 @@ func gen(t *rapid.T) Case {
 		c.Workers = append(c.Workers, sc)
 	}
 	return c
+}
+
+// genOwnerVsFlushers draws the "single owner" shape: worker 0 is the only worker that ever
+// looks up file f; all its content writes are acknowledged by a propagating Close/Flush
+// (Flags.Sync or descriptor Flush) and it reads them back (read, FlushPath, Root.Flush). The
+// other workers flush the directories above f (FlushPath on a directory = Directory.Flush,
+// which re-syncs and then empties the directory's child cache), flush the root, list other
+// directories and work on files that share no MFS object with f. In this shape no second
+// File/Directory object for the path of f can come into being, so the open finding
+// DIRFLUSH-STALE does not apply (see dirFlushExplains) and every acknowledged write must
+// survive the concurrent directory flushes.
+func genOwnerVsFlushers(t *rapid.T) [][]Step {
+	f := rapid.IntRange(0, len(filePaths)-1).Draw(t, "ownfile")
+	// for a file below /d: may the root directory be flushed as well? (then nobody but the
+	// owner may resolve anything below /d)
+	rootFlush := f == 0 || rapid.Bool().Draw(t, "rootflush")
+	var owner []Step
+	n := rapid.IntRange(2, 5).Draw(t, "ownsteps")
+	for i := 0; i < n; i++ {
+		k := rapid.SampledFrom([]string{
+			"write", "write", "write", "writeflush", "writeflush", "read", "read", "read", "flushpath", "flush", "size", "list", "mode", "setmode", "setmtime",
+		}).Draw(t, "ownkind")
+		if i == 0 {
+			k = rapid.SampledFrom([]string{"write", "writeflush"}).Draw(t, "ownfirst")
+		}
+		s := Step{Kind: k, File: f}
+		switch k {
+		case "write":
+			s.Sync = true
+		case "writeflush":
+			s.Sync = rapid.Bool().Draw(t, "sync")
+		case "flush":
+			s.File = 0
+		case "list":
+			s.File = 0
+			s.Arg = dirOf(f)
+		case "setmode":
+			s.Arg = rapid.SampledFrom([]int{0o644, 0o600, 0o755}).Draw(t, "mode")
+		}
+		owner = append(owner, s)
+	}
+	ws := [][]Step{owner}
+	nw := rapid.IntRange(1, 3).Draw(t, "others")
+	for w := 0; w < nw; w++ {
+		n := rapid.IntRange(1, 3).Draw(t, "steps")
+		var sc []Step
+		for i := 0; i < n; i++ {
+			var s Step
+			if w > 0 && rapid.IntRange(0, 2).Draw(t, "free") == 0 {
+				s = genStep(t)
+			} else {
+				s = Step{Kind: rapid.SampledFrom([]string{"flushdir", "flushdir", "flushdir", "flush"}).Draw(t, "fkind")}
+				if s.Kind == "flushdir" {
+					s.Arg = rapid.IntRange(0, 1).Draw(t, "arg")
+				}
+			}
+			// the directory flush that races with the owner: the parent of f, or (for a file
+			// below /d when the root is flushed) the grandparent
+			race := Step{Kind: "flushdir", Arg: dirOf(f)}
+			if rootFlush {
+				race.Arg = 0
+			}
+			if s.Kind == "flushdir" && (s.Arg == 0 && !rootFlush || s.Arg == 1 && f == 0) {
+				s = race
+			}
+			if touches(s, f, rootFlush) {
+				// would create a second object for the owner's path: flush instead
+				s = race
+			}
+			sc = append(sc, s)
+		}
+		ws = append(ws, sc)
+	}
+	return ws
 }
 
 // ---------------------------------------------------------------------------
@@ -180,11 +304,19 @@ func excludeF10(c Case) (Case, int) {
 // ---------------------------------------------------------------------------
 // parent side: run the case in a child process under a watchdog
 
+type violation struct {
+	Kind string `json:"kind"` // lost-write | panic
+	File int    `json:"file"` // token file of a lost write (-1: none)
+	Msg  string `json:"msg"`
+}
+
 type childResult struct {
 	Done      bool     `json:"done"`
-	Violation string   `json:"violation,omitempty"`
-	Kind      string   `json:"kind,omitempty"`   // lost-write | panic
-	File      int      `json:"file"`             // token file of a lost write
+	Violation string   `json:"violation,omitempty"` // the first violation seen
+	Kind      string   `json:"kind,omitempty"`      // lost-write | panic
+	File      int      `json:"file"`                // token file of a lost write
+	// the first violation of every (kind, file) in the order seen
+	Violations []violation `json:"violations,omitempty"`
 	Errors    []string `json:"errors,omitempty"` // unexpected (non-property) errors, informational
 	Ops       int64    `json:"ops"`
 	Acked     int      `json:"acked"`
@@ -354,17 +486,27 @@ func run(c Case) kit.Result {
 			fmt.Printf("C20 INCONCLUSIVE: %s; stderr tail:\n%s\n", o.crash, tailOf(o.dump, 4000))
 			return kit.Result{Classes: append(classes, "inconclusive:child-died")}
 		case o.res.Violation != "":
-			res := kit.Fail("%s", o.res.Violation)
-			if o.res.Kind == "lost-write" {
-				// signatures of the known findings DIRFLUSH-STALE and META-LOST-UPDATE (see below)
-				switch {
-				case hasStep(eff, "flushdir", -1):
-					res.Known = dirFlushStale
-				case hasStep(eff, "setmode", o.res.File) || hasStep(eff, "setmtime", o.res.File):
-					res.Known = metaLostUpdate
+			// Several files can show a violation in one run; report one that no open finding
+			// explains, if there is any, so that a known defect on one file does not hide an
+			// unexplained loss on another.
+			vs := o.res.Violations
+			if len(vs) == 0 {
+				vs = []violation{{Kind: o.res.Kind, File: o.res.File, Msg: o.res.Violation}}
+			}
+			first := kit.Result{}
+			for i, v := range vs {
+				res := kit.Fail("%s", v.Msg)
+				if v.Kind == "lost-write" {
+					res.Known = attribute(eff, v.File)
+				}
+				if res.Known == "" || c.NoExclude || !kit.OpenFinding("C20", res.Known) {
+					return res
+				}
+				if i == 0 {
+					first = res
 				}
 			}
-			return res
+			return first
 		}
 		if len(o.res.Errors) > 0 {
 			classes = append(classes, "unexpected-op-error")
@@ -374,24 +516,125 @@ func run(c Case) kit.Result {
 }
 
 // Known finding DIRFLUSH-STALE: FlushPath on a directory (Directory.Flush) empties the
-// directory's child cache while other goroutines still use the File objects they looked up
-// before; the next lookup creates a second File object for the same entry, the two do not
-// exclude each other, and an acknowledged write is overwritten or never reaches the tree.
-// While it is open, a lost write in a case that contains a directory flush is attributed to
-// it; deadlocks in such cases and lost writes in all other cases are still reported.
+// directory's child cache while other goroutines still use the File/Directory objects they
+// looked up before. What that finding explains (and only that is excluded while it is open):
+//
+//	(a) a write acknowledged by a NON-propagating Close (descriptor without Flags.Sync and
+//	    without Flush): the new node lives only in the File object; once the object has been
+//	    dropped from the cache nobody ever copies it into the directory;
+//	(b) two workers looking up the same path: one gets the object from before the flush, the
+//	    other a fresh one made from the directory entry; the two objects do not exclude each
+//	    other and the next cache sync writes the stale one over the entry. For a file below /d
+//	    the same happens one level up with the Directory object of /d when "/" is flushed.
+//
+// It does NOT explain the loss of a write that was acknowledged by a propagating Close/Flush
+// to a file which only one worker ever looks up: the bubbling update stores the new node in
+// the File object first and then in the directory entry (under the directory lock), so a
+// concurrent Directory.Flush sees either the old node and is overwritten by the update, or
+// the new one. Such a loss is reported.
 const dirFlushStale = "DIRFLUSH-STALE"
 
 // Known finding META-LOST-UPDATE: File.SetMode/SetModTime read the file node, build a new
 // node from it and store it without excluding writers (no desclock, nodeLock only around the
 // final assignment); a descriptor Close/Flush that lands in between is overwritten, so an
-// acknowledged write disappears. While it is open, a lost write to a file that some worker
-// also SetMode/SetModTime's is attributed to it.
+// acknowledged write disappears. While it is open, a lost write to a file that one worker
+// SetMode/SetModTime's while ANOTHER worker writes it is attributed to it.
 const metaLostUpdate = "META-LOST-UPDATE"
 
-func hasStep(c Case, kind string, file int) bool {
+// attribute names the open finding whose mechanism can have produced a lost write to file f
+// in case c ("" = none: the loss is reported).
+func attribute(c Case, f int) string {
+	switch {
+	case dirFlushExplains(c, f):
+		return dirFlushStale
+	case metaExplains(c, f):
+		return metaLostUpdate
+	}
+	return ""
+}
+
+func dirOf(f int) int { // index of the directory holding token file f: 0 = "/", 1 = "/d"
+	if f == 0 {
+		return 0
+	}
+	return 1
+}
+
+// resolvesD: the step resolves a path below /d (and so looks up the Directory object of /d).
+func resolvesD(s Step) bool {
+	switch {
+	case isFileOp(s.Kind):
+		return s.File != 0
+	case s.Kind == "list" || s.Kind == "flushdir":
+		return s.Arg == 1
+	case s.Kind == "mv" || s.Kind == "mvdir":
+		return true
+	}
+	return false
+}
+
+// touches: the step obtains an MFS object on the path of token file f - the File object
+// itself (any operation on f, or a listing of its directory, which instantiates every
+// child) or, when the root directory is flushed somewhere in the case, the Directory object
+// of /d above it.
+func touches(s Step, f int, rootFlushed bool) bool {
+	if isFileOp(s.Kind) && s.File == f {
+		return true
+	}
+	if s.Kind == "list" && s.Arg == dirOf(f) {
+		return true
+	}
+	return f != 0 && rootFlushed && resolvesD(s)
+}
+
+func dirFlushExplains(c Case, f int) bool {
+	rootFlushed := hasStepArg(c, "flushdir", 0)
+	if !rootFlushed && !(f != 0 && hasStepArg(c, "flushdir", 1)) {
+		return false // no directory above f is ever flushed
+	}
+	users := 0
+	for _, sc := range c.Workers {
+		uses := false
+		for _, s := range sc {
+			if s.Kind == "write" && s.File == f && !s.Sync {
+				return true // (a)
+			}
+			if touches(s, f, rootFlushed) {
+				uses = true
+			}
+		}
+		if uses {
+			users++
+		}
+	}
+	return users > 1 // (b)
+}
+
+func metaExplains(c Case, f int) bool {
+	for w, sc := range c.Workers {
+		for _, s := range sc {
+			if (s.Kind != "setmode" && s.Kind != "setmtime") || s.File != f {
+				continue
+			}
+			for w2, sc2 := range c.Workers {
+				if w2 == w {
+					continue
+				}
+				for _, s2 := range sc2 {
+					if (s2.Kind == "write" || s2.Kind == "writeflush") && s2.File == f {
+						return true
+					}
+				}
+			}
+		}
+	}
+	return false
+}
+
+func hasStepArg(c Case, kind string, arg int) bool {
 	for _, sc := range c.Workers {
 		for _, s := range sc {
-			if s.Kind == kind && (file < 0 || s.File == file) {
+			if s.Kind == kind && s.Arg == arg {
 				return true
 			}
 		}
@@ -452,6 +695,14 @@ func classify(c Case) []string {
 	if metaReaderVsWriter(c) {
 		set["meta-reader-vs-writer"] = true
 	}
+	if ownerVsDirFlush(c) {
+		set["sole-owner-sync-write-vs-dirflush"] = true
+	}
+	if c.Sched == nil {
+		set["sched:none"] = true
+	} else {
+		set["sched:"+c.Sched.Mode] = true
+	}
 	var out []string
 	for k := range set {
 		out = append(out, k)
@@ -498,9 +749,43 @@ func metaReaderVsWriter(c Case) bool {
 	return false
 }
 
+// ownerVsDirFlush: some file gets propagating (Sync / descriptor Flush) content writes from a
+// worker while ANOTHER worker flushes a directory above it, and the open finding
+// DIRFLUSH-STALE does not cover that file (single owner, no non-propagating write): every
+// acknowledged write has to survive the directory flushes.
+func ownerVsDirFlush(c Case) bool {
+	for f := range filePaths {
+		if dirFlushExplains(c, f) {
+			continue
+		}
+		for w, sc := range c.Workers {
+			for _, s := range sc {
+				if !(s.File == f && (s.Kind == "writeflush" || s.Kind == "write" && s.Sync)) {
+					continue
+				}
+				for w2, sc2 := range c.Workers {
+					if w2 == w {
+						continue
+					}
+					for _, s2 := range sc2 {
+						if s2.Kind == "flushdir" && (s2.Arg == 0 || f != 0) {
+							return true
+						}
+					}
+				}
+			}
+		}
+	}
+	return false
+}
+
 // nonTrivial: two different workers operate on the same file and at least one of them writes
-// (content or metadata) to it.
+// (content or metadata) to it, or one worker writes a file while another flushes a directory
+// above it (ownerVsDirFlush).
 func nonTrivial(c Case) bool {
+	if ownerVsDirFlush(c) {
+		return true
+	}
 	for w, sc := range c.Workers {
 		for _, s := range sc {
 			if !isWriter(s.Kind) {
@@ -523,7 +808,7 @@ func nonTrivial(c Case) bool {
 
 var spec = kit.Spec[Case]{
 	Prop: "C20", Name: "conc",
-	Rule:  "2-4 real goroutines in a child process (GOMAXPROCS 2|16), each looping 60-500 times over a generated script (<=6 steps) of read / slot write (+-Sync, +-descriptor Flush) / Mode / ModTime / SetMode / SetModTime / Size / List / Root.Flush / FlushPath(file|dir) / Mv(file|dir) on 3 shared files in 2 directories; liveness by watchdog + SIGQUIT dump signature, safety by per-worker slots with growing sequence numbers in each file (a write whose Close/Flush returned before a read/flush began must be visible in what that read/flush returns, and in the final flushed root); non-trivial = two workers operate on the same file and one of them writes content or metadata",
+	Rule:  "2-4 real goroutines in a child process (GOMAXPROCS 2|16), each looping 60-500 times over a generated script (<=6 steps) of read / slot write (+-Sync, +-descriptor Flush) / Mode / ModTime / SetMode / SetModTime / Size / List / Root.Flush / FlushPath(file|dir) / Mv(file|dir) on 3 shared files in 2 directories; one case in three has the single-owner shape (one worker owns a file and acknowledges every write by a propagating Close/Flush, the others flush the directories above it); three cases in four run with generated scheduling points at the DAGService.Add/Get boundary (every k-th call: hand-off until other workers completed 1-2 steps, or sleep/yield), which widen the lock-free windows of every update that bubbles up the tree; liveness by watchdog + SIGQUIT dump signature, safety by per-worker slots with growing sequence numbers in each file (a write whose Close/Flush returned before a read/flush began must be visible in what that read/flush returns, and in the final flushed root); non-trivial = two workers operate on the same file and one of them writes content or metadata, or one worker writes a file with propagating Close/Flush while another flushes a directory above it",
 	Quick: 30, Thorough: 75,
 	Gen: gen, Run: run,
 }
@@ -550,6 +835,10 @@ type childRun struct {
 	viol   string
 	vkind  string
 	vfile  int
+	viols  []violation
+	// scheduling points (Case.Sched)
+	stepsDone atomic.Int64 // completed steps of all workers
+	active    atomic.Int64 // workers still running
 	errs   []string
 	nerrs  int
 	ops    atomic.Int64
@@ -561,6 +850,15 @@ func (r *childRun) violation(kind string, file int, format string, a ...any) {
 	if r.viol == "" {
 		r.viol = fmt.Sprintf(format, a...)
 		r.vkind, r.vfile = kind, file
+	}
+	seen := false
+	for _, v := range r.viols {
+		if v.Kind == kind && v.File == file {
+			seen = true
+		}
+	}
+	if !seen {
+		r.viols = append(r.viols, violation{Kind: kind, File: file, Msg: fmt.Sprintf(format, a...)})
 	}
 	r.mu.Unlock()
 }
@@ -704,16 +1002,15 @@ func (r *childRun) checkFlushedRoot(when string, want [][]int) {
 		fn, err := r.resolveDAG(nd, p)
 		if err != nil {
 			r.violation("lost-write", f, "%s: %s cannot be resolved in the flushed root although writes to it were acknowledged: %v", when, p, err)
-			return
+			continue
 		}
 		b, err := r.readDAGFile(fn)
 		if err != nil {
 			r.violation("lost-write", f, "%s: %s in the flushed root cannot be read: %v", when, p, err)
-			return
+			continue
 		}
 		if tok, miss := lost(b, want[f]); miss {
 			r.violation("lost-write", f, "%s: write %s to %s, acknowledged before the flush began, is not in the flushed root", when, tok, p)
-			return
 		}
 	}
 }
@@ -882,12 +1179,91 @@ func (r *childRun) worker(w int, script []Step, wg *sync.WaitGroup) {
 			r.violation("panic", -1, "worker %d: panic under concurrent use: %v\n%s", w, p, debug.Stack())
 		}
 	}()
+	defer r.active.Add(-1)
 	seq := 0
 	for i := 0; i < r.c.Loops; i++ {
 		for _, s := range script {
 			r.step(w, s, &seq)
+			r.stepsDone.Add(1)
 		}
 	}
+}
+
+// schedDAG turns the DAGService calls of MFS into scheduling points owned by the harness
+// (Case.Sched). It changes no result of any call.
+type schedDAG struct {
+	ipld.DAGService
+	r  *childRun
+	sc Sched
+	n  atomic.Int64
+}
+
+func isDirNode(nd ipld.Node) bool {
+	pn, ok := nd.(*dag.ProtoNode)
+	if !ok {
+		return false
+	}
+	fsn, err := ft.FSNodeFromBytes(pn.Data())
+	if err != nil {
+		return false
+	}
+	return fsn.Type() == ft.TDirectory || fsn.Type() == ft.THAMTShard
+}
+
+func (d *schedDAG) point() {
+	if d.sc.Every > 1 && d.n.Add(1)%int64(d.sc.Every) != 0 {
+		return
+	}
+	if d.r.active.Load() < 2 {
+		return // nobody to interleave with (setup, final checks, last worker)
+	}
+	for i := 0; i < d.sc.Yields; i++ {
+		runtime.Gosched()
+	}
+	switch d.sc.Mode {
+	case "handoff":
+		start := d.r.stepsDone.Load()
+		deadline := time.Now().Add(time.Duration(d.sc.WaitUs) * time.Microsecond)
+		for spin := 0; d.r.stepsDone.Load()-start < int64(d.sc.Steps) && d.r.active.Load() >= 2; spin++ {
+			if spin%8 == 7 {
+				if time.Now().After(deadline) {
+					return
+				}
+				time.Sleep(10 * time.Microsecond)
+			} else {
+				runtime.Gosched()
+			}
+		}
+	default:
+		if d.sc.WaitUs > 0 {
+			time.Sleep(time.Duration(d.sc.WaitUs) * time.Microsecond)
+		}
+	}
+}
+
+func (d *schedDAG) Add(ctx context.Context, nd ipld.Node) error {
+	if d.sc.On != "get" {
+		switch d.sc.Nodes {
+		case "dir":
+			if isDirNode(nd) {
+				d.point()
+			}
+		case "file":
+			if !isDirNode(nd) {
+				d.point()
+			}
+		default:
+			d.point()
+		}
+	}
+	return d.DAGService.Add(ctx, nd)
+}
+
+func (d *schedDAG) Get(ctx context.Context, c cid.Cid) (ipld.Node, error) {
+	if d.sc.On == "get" || d.sc.On == "both" {
+		d.point()
+	}
+	return d.DAGService.Get(ctx, c)
 }
 
 func newDagserv() ipld.DAGService {
@@ -925,6 +1301,9 @@ func runInChild(c Case) childResult {
 	ctx, cancel := context.WithCancel(context.Background())
 	defer cancel()
 	r := &childRun{ctx: ctx, dserv: newDagserv(), c: c, acked: make([][]int, len(filePaths))}
+	if c.Sched != nil {
+		r.dserv = &schedDAG{DAGService: r.dserv, r: r, sc: *c.Sched}
+	}
 	for f := range r.acked {
 		r.acked[f] = make([]int, maxWorkers)
 	}
@@ -932,6 +1311,7 @@ func runInChild(c Case) childResult {
 		return childResult{Done: true, Errors: []string{"setup: " + err.Error()}}
 	}
 	var wg sync.WaitGroup
+	r.active.Store(int64(len(c.Workers)))
 	for w, sc := range c.Workers {
 		wg.Add(1)
 		go r.worker(w, sc, &wg)
@@ -944,22 +1324,21 @@ func runInChild(c Case) childResult {
 			fi, err := r.file(f)
 			if err != nil {
 				r.violation("lost-write", f, "final: %s cannot be looked up: %v", filePaths[f], err)
-				break
+				continue
 			}
 			fd, err := fi.Open(ctx, mfs.Flags{Read: true})
 			if err != nil {
 				r.violation("lost-write", f, "final: %s cannot be opened: %v", filePaths[f], err)
-				break
+				continue
 			}
 			b, err := io.ReadAll(fd)
 			fd.Close()
 			if err != nil {
 				r.violation("lost-write", f, "final: %s cannot be read: %v", filePaths[f], err)
-				break
+				continue
 			}
 			if tok, miss := lost(b, want); miss {
 				r.violation("lost-write", f, "final read of %s: acknowledged write %s is not visible", filePaths[f], tok)
-				break
 			}
 		}
 	}
@@ -979,7 +1358,7 @@ func runInChild(c Case) childResult {
 			acked += n
 		}
 	}
-	return childResult{Done: true, Violation: r.viol, Kind: r.vkind, File: r.vfile, Errors: r.errs, Ops: r.ops.Load(), Acked: acked}
+	return childResult{Done: true, Violation: r.viol, Kind: r.vkind, File: r.vfile, Violations: r.viols, Errors: r.errs, Ops: r.ops.Load(), Acked: acked}
 }
 
 // TestChildC20 is the child-process entry point; it does nothing in a normal test run.
